@@ -58,6 +58,7 @@ static void release_hook(void *mutex, int kind, void *cond) {
 }
 
 static void acquire_hook(void *mutex) {
+  if (g_db && mutex == (void *)&g_db->mutex) sched_clear_signals();
   if (!g_tracing || !g_db || mutex != (void *)&g_db->mutex) return;
   printf("acq %d @%ld\n", sched_self(), sched_now());
 }
